@@ -19,6 +19,9 @@ CLAIMED={
  "C04":("runtime reference-model + partition monitor: every Loop/Polygon/ContainsPointQuery containment answer on every evaluation path (first pass, index fresh, brute force, after Invert twice, single-loop polygon, LaxLoop/LaxPolygon/Loop as index shapes, containsBruteForce) is compared with an exact crossing-parity model; invariant hook on every index cell's containsCenter; model-free exactly-once monitors for loop+inverse, polygon+complement and all cells of one level",
          "Held on every execution observed: 5*10^3 (quick) / 2.5*10^5 (thorough) loops x ~70-150 probes on 10+ paths, 2*10^3 / 10^5 polygons with holes, 600 / 2*10^4 cell tilings; probes concentrated on vertices, edges, ulp neighbours, index-cell centres/corners, and loops with a vertex exactly at the centre of its index cell.",
          "Trusted: internal/ref crossing parity (exact orientation + SoS, documented vertex rule), generated loops simple by construction (star-shaped).","DESIGN.md section 5 C04"),
+ "C06":("runtime brute-force-comparison monitor with invariant hooks: for every generated shape collection the monitor scans every edge of every shape with the exact reference predicates and compares ContainsPointQuery (3 vertex models: Contains/ShapeContains/ContainingShapes), CrossingEdgeQuery (Crossings/CrossingsEdgeMap, Interior/All, repeated on one index), iterator LocatePoint/LocateCellID, Loop/Polygon ContainsCell/IntersectsCell; after every build the hooked cell list is checked (sorted, disjoint, sorted clipped shapes and edge ids, containsCenter, every sampled point of every edge lies in a cell that lists the edge); Shape contract (chains tile the edge ids, ChainEdge == Edge, ChainPosition inverts) for all 7 shape types",
+         "Held on every execution observed: 2.5*10^3 (quick) / 10^5 (thorough) collections of 1..8 mixed shapes, ~90 point queries x 3 models and ~24 crossing queries each, all compared with the full scan. Cell relations are two-sided only for cells clearly inside/outside by construction, one-sided otherwise.",
+         "Trusted: the monitor's own edge scan with internal/ref predicates; ring-parity containment of constructed polygons.","DESIGN.md section 5 C06"),
  "C07":("runtime monitor with three oracles per pair and per inverted combination (A,B),(~A,B),(A,~B),(~A,~B): ground truth known by construction (nested / disjoint / crossing / same-level adjacent cells), exact set-algebra laws evaluated on the library's own answers (symmetry, self-containment, Intersects == !complement.Contains, Contains == complements reversed, single-loop polygon == loop), and one-sided point-set checks against the exact crossing-parity model; polygons with holes/islands vs small loops placed by radius band",
          "Held on every execution observed: 1.2*10^4 (quick) / 4*10^5 (thorough) loop pairs x 4 inversions, 3*10^3 / 10^5 cell pairs, 2*10^3 / 10^5 polygon pairs; loops of 3..700 (..10^4) vertices. Pairs with T-junctions (different-level cells) get laws and one-sided checks only, because under the library's perturbation model a vertex in the interior of an edge is not on it.",
          "Trusted: conservative inner/outer radii of star-shaped loops for the constructed relation; internal/ref parity containment.","DESIGN.md section 5 C07"),
